@@ -1,10 +1,12 @@
 import PyrexVerif.Proofs.DftModel
 /-!
-# `FunctionSignal._apply_filters` with one filter is `Signal.filter_frequencies`
+# `FunctionSignal._apply_filters`: stacked filters multiply their response tables;
+# complex homogeneity of the un-forced filter
 -/
+open scoped ZMod
 noncomputable section
 namespace DftApply
-open PyrexR
+open PyrexR DftBridge DftFilter DftModel
 
 lemma cmul_one_left (r : Cx) : cmul ((1, 0) : Cx) r = r := by
   simp [cmul]
@@ -24,6 +26,143 @@ theorem apply_filters_single (times vals : List ℝ) (H : ℝ → Cx) (fr vec : 
   unfold applyFilters filterFrequencies
   simp only [List.foldl_cons, List.foldl_nil]
   rw [zipWith_cmul_replicate_one _ _ (by simp), ht]
+
+/-! ### stacked filters -/
+
+abbrev Flt := (ℝ → Cx) × Bool × Bool
+
+/-- the table-combining step of `_apply_filters` -/
+def tableStep (freqs : List ℝ) (acc : List Cx) (flt : Flt) : List Cx :=
+  List.zipWith cmul acc (getFilterResponse freqs flt.1 flt.2.1 flt.2.2)
+
+lemma length_foldl_table (freqs : List ℝ) : ∀ (filters : List Flt) (acc : List Cx),
+    acc.length = freqs.length → (filters.foldl (tableStep freqs) acc).length = freqs.length
+  | [], _, h => h
+  | flt :: r, acc, h => by
+    rw [List.foldl_cons]
+    exact length_foldl_table freqs r _ (by simp [tableStep, h])
+
+/-- bin `m` of the combined table is the product of the filters' responses in that bin -/
+lemma getD_foldl_table (freqs : List ℝ) (m : ℕ) (hm : m < freqs.length) : ∀ (filters : List Flt)
+    (acc : List Cx), acc.length = freqs.length →
+    (filters.foldl (tableStep freqs) acc).getD m 0
+      = filters.foldl (fun a flt => cmul a (respAt flt.1 flt.2.1 (freqs.getD m 0))) (acc.getD m 0)
+  | [], _, _ => rfl
+  | flt :: r, acc, h => by
+    rw [List.foldl_cons, List.foldl_cons, getD_foldl_table freqs m hm r _ (by simp [tableStep, h])]
+    congr 1
+    unfold tableStep
+    rw [List.getD_eq_getElem _ _ (by simp [h, hm]), List.getElem_zipWith,
+      ← List.getD_eq_getElem _ (0 : Cx) (by omega), ← List.getD_eq_getElem _ (0 : Cx) (by simp [hm]),
+      getD_getFilterResponse _ _ _ _ _ hm]
+
+lemma cconj_cmul (a b : Cx) : cconj (cmul a b) = cmul (cconj a) (cconj b) := by
+  simp only [cconj, cmul]; refine Prod.ext ?_ ?_ <;> (simp <;> ring)
+
+lemma cconj_foldl (g : Flt → Cx) : ∀ (filters : List Flt) (a : Cx),
+    cconj (filters.foldl (fun a flt => cmul a (g flt)) a)
+      = filters.foldl (fun a flt => cmul a (cconj (g flt))) (cconj a)
+  | [], _ => rfl
+  | flt :: r, a => by
+    rw [List.foldl_cons, List.foldl_cons, cconj_foldl g r, cconj_cmul]
+
+/-- the response of the product function, in one bin, with a common `force_real` flag -/
+lemma respAt_prod (filters : List Flt) (fr : Bool) (hfr : ∀ flt ∈ filters, flt.2.1 = fr) (f : ℝ) :
+    respAt (fun f => filters.foldl (fun a flt => cmul a (flt.1 f)) ((1, 0) : Cx)) fr f
+      = filters.foldl (fun a flt => cmul a (respAt flt.1 flt.2.1 f)) ((1, 0) : Cx) := by
+  have hcongr : ∀ (g₁ g₂ : Flt → Cx) (l : List Flt) (a : Cx), (∀ flt ∈ l, g₁ flt = g₂ flt) →
+      l.foldl (fun a flt => cmul a (g₁ flt)) a = l.foldl (fun a flt => cmul a (g₂ flt)) a := by
+    intro g₁ g₂ l
+    induction l with
+    | nil => intro a _; rfl
+    | cons x l ih =>
+      intro a h
+      rw [List.foldl_cons, List.foldl_cons, h x (by simp)]
+      exact ih _ (fun y hy => h y (List.mem_cons_of_mem _ hy))
+  cases fr
+  · simp only [respAt, Bool.false_eq_true, if_false]
+    apply hcongr
+    intro flt hflt
+    simp [hfr flt hflt]
+  · simp only [respAt, if_true]
+    split_ifs with hneg
+    · rw [cconj_foldl (fun flt => flt.1 |f|)]
+      have h1 : cconj ((1, 0) : Cx) = (1, 0) := by simp [cconj]
+      rw [h1]
+      apply hcongr
+      intro flt hflt
+      simp [hfr flt hflt]
+    · apply hcongr
+      intro flt hflt
+      simp [hfr flt hflt]
+
+lemma list_ext_getD_cx (a b : List Cx) (hl : a.length = b.length)
+    (h : ∀ k, k < a.length → a.getD k 0 = b.getD k 0) : a = b := by
+  apply List.ext_getElem hl
+  intro i h1 h2
+  have := h i h1
+  rwa [List.getD_eq_getElem _ _ h1, List.getD_eq_getElem _ _ h2] at this
+
+/-- **stacked filters**: a `FunctionSignal` carrying several filters with the same `force_real` flag is
+filtered exactly like a `Signal` with the product of the response functions (the code multiplies the
+response tables); hence every C05 theorem applies to it -/
+theorem apply_filters_stacked (times vals : List ℝ) (filters : List Flt) (fr : Bool)
+    (hfr : ∀ flt ∈ filters, flt.2.1 = fr) (ht : times.length = vals.length) :
+    applyFilters vals (sigDt times) filters
+      = filterFrequencies times vals
+          (fun f => filters.foldl (fun a flt => cmul a (flt.1 f)) ((1, 0) : Cx)) fr true := by
+  unfold applyFilters filterFrequencies
+  simp only
+  rw [ht]
+  congr 3
+  set freqs := fftfreqs (2 * vals.length) (sigDt times) with hfreqs
+  have hfl : freqs.length = 2 * vals.length := by simp [hfreqs]
+  have hrep : (List.replicate (2 * vals.length) ((1, 0) : Cx)).length = freqs.length := by simp [hfl]
+  apply list_ext_getD_cx
+  · rw [show (fun acc (flt : Flt) => List.zipWith cmul acc (getFilterResponse freqs flt.1 flt.2.1 flt.2.2))
+        = tableStep freqs from rfl, length_foldl_table freqs filters _ hrep, length_getFilterResponse]
+  · intro m hm
+    rw [show (fun acc (flt : Flt) => List.zipWith cmul acc (getFilterResponse freqs flt.1 flt.2.1 flt.2.2))
+        = tableStep freqs from rfl] at hm ⊢
+    rw [length_foldl_table freqs filters _ hrep] at hm
+    rw [getD_foldl_table freqs m hm filters _ hrep, getD_getFilterResponse _ _ _ _ _ hm,
+      respAt_prod filters fr hfr]
+    congr 1
+    rw [List.getD_eq_getElem _ _ (by simp; omega)]
+    simp
+
+/-! ### complex homogeneity without `force_real` -/
+
+/-- before the real part is taken, the un-forced filter is homogeneous in the response for COMPLEX factors:
+sample `k` of the complex output for `c·H` is `c` times that for `H` -/
+theorem filter_homog_complex (x : List ℝ) (c : Cx) (H : ℝ → Cx) (dt : ℝ) (vec : Bool) (k : ℕ)
+    (hk : k < 2 * x.length) :
+    (filterCore x (getFilterResponse (fftfreqs (2 * x.length) dt) (fun f => cmul c (H f)) false vec)).getD k 0
+      = cmul c ((filterCore x (getFilterResponse (fftfreqs (2 * x.length) dt) H false vec)).getD k 0) := by
+  have : NeZero (2 * x.length) := ⟨by omega⟩
+  apply toC_injective
+  have h1 := congrFun (filterCore_bridge (M := 2 * x.length) x
+    (getFilterResponse (fftfreqs (2 * x.length) dt) (fun f => cmul c (H f)) false vec) (by omega) (by simp))
+    (k : ZMod (2 * x.length))
+  have h2 := congrFun (filterCore_bridge (M := 2 * x.length) x
+    (getFilterResponse (fftfreqs (2 * x.length) dt) H false vec) (by omega) (by simp))
+    (k : ZMod (2 * x.length))
+  have e1 : ∀ l : List Cx, fnOf (M := 2 * x.length) l (k : ZMod (2 * x.length)) = toC (l.getD k 0) := by
+    intro l; simp only [fnOf]; rw [ZMod.val_natCast_of_lt hk]
+  rw [e1] at h1 h2
+  rw [toC_cmul, h1, h2]
+  have hfun : fnOf (M := 2 * x.length)
+      (getFilterResponse (fftfreqs (2 * x.length) dt) (fun f => cmul c (H f)) false vec)
+      = fun m => toC c * fnOf (M := 2 * x.length)
+          (getFilterResponse (fftfreqs (2 * x.length) dt) H false vec) m
+        + 0 * (fun _ => (0 : ℂ)) m := by
+    funext m
+    have hm : m.val < 2 * x.length := ZMod.val_lt m
+    simp only [fnOf]
+    rw [getD_getFilterResponse _ _ _ _ _ (by simp [hm]), getD_getFilterResponse _ _ _ _ _ (by simp [hm])]
+    simp [respAt]
+  rw [hfun, filtZ_resp_lin]
+  simp only [Pi.add_apply, Pi.smul_apply, smul_eq_mul, zero_mul, add_zero]
 
 end DftApply
 end
